@@ -252,7 +252,7 @@ ADDED_RULES = {
     'C10': 'R-LOOPCALLER, R-MOVEOUT.site on the strategies; R-POLICYFWD (same rule on the WhenAny family). R-FORWARD (a wrapper hands an input back as the output outside the strategy only for count == 1 or a Ready input that, policy None, completed / otherwise holds a value). R-OUTCOME, R-FIRSTVALUE (Any<FirstFail>: a value wins iff no value won before). R-MOVEOUT.site also covers SharedCore::Retire / UniqueCore::Retire (the move-out the strategies reach through the virtual call). R-ONENODE, R-HANDOFF (shared with C06 / C04).',
     'C11': 'R-EVENTCALLBACK (the registered callback counts exactly one unit per completing future and leaves it alone; the shared-input helper forwards). R-DEADLINE (every WaitUntil form hands the caller\'s time_point, unchanged, down to the blocking primitive: no conversion to a duration and no arithmetic on the way).',
     'C12': 'R-ROUTE.drop (a cancelled head stores StopTag on every path of Drop()). R-HANDLEMOVE (shared with C03). R-ATTACHFORM on the Task forms (the lazy form agrees with its eager sibling), R-GETWAIT on Task::Get; R-START recognises binding through a helper of the core.',
-    'C13': 'R-RESUME.executor (every PromiseType::Impl instantiation takes the resuming core\'s executor on every path). R-MOVEOUT.site on the coroutine awaiters. R-PROMISE (initial_suspend / unhandled_exception / return_value / await_resume forms per PromiseType instantiation). R-AWAITEVENT (multi-future Await resumes exactly once, by the last completion; awaited futures left alone; sticky forms resume through Submit). R-AWAITERFORM (scheduling awaiters: a path of await_suspend that stays suspended has handed the coroutine on, one returning false has not; await_ready constant false for pure executor switches).',
+    'C13': 'R-RESUME.executor (every PromiseType::Impl instantiation takes the resuming core\'s executor on every path). R-MOVEOUT.site on the coroutine awaiters. R-PROMISE (initial_suspend / unhandled_exception / return_value / await_resume forms per PromiseType instantiation). R-AWAITEVENT (multi-future Await resumes exactly once, by the last completion; awaited futures left alone; sticky forms resume through Submit). R-AWAITERFORM (scheduling awaiters: a path of await_suspend that stays suspended has handed the coroutine on, one returning false has not; await_ready constant false for pure executor switches). R-ONEXEC (an executor-naming awaiter resumes the coroutine through that executor on every path: await_suspend never answers do-not-suspend, helpers followed).',
     'C14': 'R-GUARDSTATE (every GuardState member follows its row of the ownership table: summaries evaluated on {null,P,Q} x {owns,not}), R-GUARDCALLS (mode of every call from a guard into its mutex, state transition first, TryLock resets on failure, Release never unlocks), R-CASFRESH. R-SHAPE with order: GetHead<FIFO=true> returns a chain running from the oldest waiter to the newest. R-SHAPE on the grant paths UnlockHereAwait / AwaitUnlockOn (the waiter handed on is the oldest of the detached batch, the rest is parked oldest first under FIFO). R-LOCKAPI (guards built after an acquisition adopt, TryGuard tries; an unlock awaiter that reports ready has released the lock exactly once on that path; lock awaiters call the entry points of their mode).',
     'C15': 'R-GUARDCALLS for UniqueGuard / SharedGuard of the shared mutex; R-INV clauses V (a failing try never modified _state) and R (reader exit / first-writer arming). R-WRAPWIDTH (a counter value and the negated quantity it is compared with have the same width). R-WRAPWIDTH resolves the negation through single-definition locals. R-LOCKAPI (shared with C14) on SharedMutex: TryGuard / TryGuardShared tags, shared / exclusive lock awaiters.',
     'C16': 'R-ADDFIRST, R-CASFRESH on TryAdd. R-EVENTFORMS (Set stores the all-done sentinel, TryAdd links in front of the expected head, Wait blocks iff registered, always-suspending awaiters resume themselves when not registered, sticky / on-executor awaiters resume through Submit). R-EVENTCALLBACK (shared with C11). R-SIBLING: Done is reached only with a provably positive amount. R-WGMODE (Consume takes ownership of the cores and registers the releasing callback, Attach does not; every overload selects its mode), R-WGRESET (Reset re-arms the event and sets the counter).',
